@@ -5,3 +5,13 @@ package csproto
 // VerifOffset exposes the encoder's write cursor to the verification harness in /verif.
 // Compiled only with -tags verif.
 func (e *Encoder) VerifOffset() int { return e.offset }
+
+// VerifResetMsgTypeCache empties the process-wide message type cache so that the first-use
+// classification of a type can be raced repeatedly by the verification harness.
+// Compiled only with -tags verif.
+func VerifResetMsgTypeCache() {
+	unmarshalMap.Range(func(k, _ interface{}) bool {
+		unmarshalMap.Delete(k)
+		return true
+	})
+}
